@@ -131,18 +131,18 @@ mut("C07-filter-off-by-one", "selfies/bond_constraints.py",
 ''')
 # ---------------- C19
 mut("C19-module-ring-log", "selfies/utils/smiles_utils.py",
-'''    attribution_index = 0
-    ring_log = dict()
+'''    ring_log = {"open": dict(), "n_rings": 0, "closed": []}
     for root in mol.get_roots():
         derived = []
-        _derive_smiles_from_fragment(''','''    attribution_index = 0
-    ring_log = _RING_LOG
-    ring_log.clear()
+        _derive_smiles_from_fragment(''','''    ring_log = _RING_LOG
+    ring_log["open"].clear()
+    ring_log["n_rings"] = 0
+    del ring_log["closed"][:]
     for root in mol.get_roots():
         derived = []
         _derive_smiles_from_fragment(''')
 mut("C19-module-ring-log", "selfies/utils/smiles_utils.py",
-'''def _strlen(slist: List[str]) -> int:''','''_RING_LOG = dict()
+'''def _strlen(slist: List[str]) -> int:''','''_RING_LOG = {"open": dict(), "n_rings": 0, "closed": []}
 
 
 def _strlen(slist: List[str]) -> int:''')
